@@ -68,6 +68,20 @@ def contracted():
     return f
 
 
+def _as_arg(sel, tracks, variant):
+    """The selection as the caller passes it: a set, or (variant 'list') a list in which ids
+    repeat, padded to as many entries as the graph has nodes when that is possible."""
+    if variant != "list":
+        return set(sel)
+    lst = sorted(sel)
+    n = tracks.graph.number_of_nodes()
+    i = 0
+    while len(lst) < n:
+        lst.append(lst[i % len(sel)])
+        i += 1
+    return lst
+
+
 def export_checks(tracks, forest, sel, wd, fmt, uniq, variant="plain"):
     """Run one export with node_ids=sel and compare the files with the closure."""
     import pandas as pd
@@ -95,7 +109,7 @@ def export_checks(tracks, forest, sel, wd, fmt, uniq, variant="plain"):
             if variant == "colors":
                 kw["color_dict"] = {int(n): np.array([0.1, 0.5, 0.9, 1.0])
                                     for n in tracks.graph.nodes}
-            export_to_csv(tracks, out, node_ids=set(sel), **kw)
+            export_to_csv(tracks, out, node_ids=_as_arg(sel, tracks, variant), **kw)
             df = pd.read_csv(out)
             ids = [int(x) for x in df["id"]]
             if set(ids) != closure or len(ids) != len(closure):
@@ -137,7 +151,7 @@ def export_checks(tracks, forest, sel, wd, fmt, uniq, variant="plain"):
                 export_to_geff(tracks, d, node_ids=other if other != set(sel) else None)
                 export_to_geff(tracks, d, node_ids=set(sel), overwrite=True)
             else:
-                export_to_geff(tracks, d, node_ids=set(sel))
+                export_to_geff(tracks, d, node_ids=_as_arg(sel, tracks, variant))
             g, _ = geff.read(d / "tracks")
             if set(int(n) for n in g.nodes) != closure:
                 probs.append(("geff-nodes", f"selection {sorted(sel)}: exported nodes "
@@ -306,8 +320,9 @@ def run_shard(spec):
                     jobs.append((rnd, j))
                     sel = rng.choice(subsets)
                     fmt = rng.choice(["csv", "geff"])
-                    variant = "colors" if fmt == "csv" and rng.random() < 0.35 else \
-                        "overwrite" if fmt == "geff" and rng.random() < 0.3 else "plain"
+                    variant = "colors" if fmt == "csv" and rng.random() < 0.3 else \
+                        "overwrite" if fmt == "geff" and rng.random() < 0.25 else \
+                        "list" if rng.random() < 0.25 else "plain"
                     try:
                         probs, closure = export_checks(tracks, forest, sel, wd, fmt,
                                                        f"{i}-{rnd}-{j}", variant)
